@@ -4,7 +4,7 @@ import vlib, session
 import smtpworld as W
 from props import c08
 
-REQUIRED = ['relay_only_if_entitled', 'auth_name_only_from_accepted_auth', 'relay_fail_closed', 'relay_error_never_widens',
+REQUIRED = ['cert_relay_only_if_listed', 'relay_only_if_entitled', 'auth_name_only_from_accepted_auth', 'relay_fail_closed', 'relay_error_never_widens',
             'listed_only_by_valid_match', 'local_iff_listed', 'refused_not_in_envelope']
 
 CLIENTS = [('::ffff:192.0.2.24', True), ('2001:db8::24', False)]
@@ -82,6 +82,69 @@ def relay_events(names, obs, vocab):
     return ev
 
 
+# ------------------------------------------------------------------------------------------------
+# the certificate branch: tls_verify()/tls_check_cert() with a scripted OpenSSL connection
+
+LISTED = [b'relay@partner.example', b'mx.partner.example', b'boss@partner.example', b'a@b.de']
+
+
+def gen_tlsv(ctx):
+    rng, quick = ctx.rng, ctx.quick()
+    hx = lambda b: b.hex() if b else '_'
+    files = []
+    for _ in range(6 if quick else 40):
+        ents = rng.sample(LISTED, rng.randrange(1, len(LISTED) + 1))
+        lines = []
+        for e in ents:
+            r = rng.random()
+            lines.append(e + (b'  ' if r < 0.15 else b'\t' if r < 0.25 else b''))
+            if rng.random() < 0.2:
+                lines.append(rng.choice([b'# comment', b'', b'not an address', b'@', b'x@y', b'RELAY@PARTNER.EXAMPLE']))
+        files.append(hx(b'\n'.join(lines) + (b'\n' if rng.random() < 0.9 else b'')))
+    files += ['-', '!', '_', hx(b'# nothing\n'), hx(b'not an address\n'), hx(b'relay@partner.example'), hx(b'relay@partner.example\0x\n')]
+
+    def variants(name):
+        out = [name, name[:-1], name[:-3], name + b'x', name + b'.attacker.test', name + b'\0', name + b'\0@attacker.test', name.upper(), name.title(),
+               b' ' + name, name + b' ', name[:4] + b'\0' + name[5:], b'', name[1:], b'x' + name]
+        k = rng.randrange(len(name))
+        out.append(name[:k] + bytes([name[k] ^ 0x20]) + name[k + 1:])
+        return out
+    cases = []
+    for f in files:
+        for _ in range(80 if quick else 600):
+            base = rng.choice(LISTED + [b'nobody@elsewhere.example', b'host.elsewhere.example'])
+            nm = rng.choice(variants(base))
+            other = rng.choice(variants(rng.choice(LISTED)) + [None, None])
+            shape = rng.random()
+            if shape < 0.45:
+                email, cn = nm, other
+            elif shape < 0.8:
+                email, cn = None, nm
+            elif shape < 0.9:
+                email, cn = other, nm            # a listed CN behind an emailAddress that is not
+            else:
+                email, cn = None, None
+            v = 1 if rng.random() < 0.8 else 0
+            peer = 'C%d:%s:%s' % (v, '-' if email is None else hx(email), '-' if cn is None else hx(cn))
+            if rng.random() < 0.1:
+                peer = rng.choice(['S', 'T', 'F71', 'F104', 'N'])
+            hasssl = 0 if rng.random() < 0.05 else 1
+            authed = 1 if rng.random() < 0.05 else 0
+            ca = 0 if rng.random() < 0.07 else 1
+            cases.append('tlsv %d %d %s %d %s %d' % (hasssl, authed, f, ca, peer, rng.choice([1, 1, 2])))
+            ctx.count('tlsv:' + ('cert' if peer[0] == 'C' else 'no-cert'))
+    return cases
+
+
+def canon_tlsv(case, out):
+    import re
+    return re.sub(r'ret=-\d+', 'ret=neg', out)
+
+
+def pred_tlsv(case, impl):
+    return 'chk_%s | %s' % (case, impl.split(' / ')[0])
+
+
 def run(ctx):
     vlib.lean_prepare(ctx, REQUIRED)
     b = session.build_qsmtpd(ctx)
@@ -116,10 +179,15 @@ def run(ctx):
             ctx.count('relay-file:%s' % (label if not label.startswith('random') else 'random'))
             ctx.count('auth:%s' % auth_mode)
             rs, obs_all = run_job(ctx, b, seqs, envtok, mk, vocab, 'relay %s %s auth=%s' % ('v4' if v4 else 'v6', label, auth_mode), rtok)
+    h = vlib.build_harness(ctx, 'h_tlsverify')
+    if h and ctx.driver:
+        vlib.differential(ctx, 'tls_verify', h, gen_tlsv(ctx), canon_h=canon_tlsv, pred=pred_tlsv,
+                          corr_name='model QsmtpModel.TlsClient.tlsVerify vs qsmtpd/starttls.c:tls_verify/tls_check_cert (scripted OpenSSL connection, real control file loader)',
+                          nontrivial=lambda c, o: 'ret=1' in o)
     if not ctx.quick():
         vlib.leanchecker(ctx, ['QsmtpModel.Props.C01'])
     return vlib.finish(ctx, assumptions=[
-        'TLS client certificate verification is an oracle (tls_verify); exercised for real by C17',
+        'in the session theorems the answer of tls_verify() is a verdict; the function itself is modelled in TlsClient.lean and run against the real code with a scripted OpenSSL connection (what OpenSSL reports about handshake, chain verification and subject fields is the oracle). With the OpenSSL of this sandbox the renegotiation / post-handshake authentication of tls_check_cert() does not complete against a real TLS peer, so no whole-server run reaches the certificate branch',
         'which addresses are local/exist is given per vocabulary line (C13/C14/C16 own those models); the relay verdict of each relayclients file is computed by the Lean model of check_ipbl_file from the file bytes'])
 
 
